@@ -48,6 +48,22 @@ void MD5_Calc(const void *data, unsigned length, UINT8 *digest)
    digest[0] = g_md5[0]; digest[1] = g_md5[1]; digest[2] = g_md5[2]; digest[3] = g_md5[3]; digest[4] = g_md5[4]; digest[5] = g_md5[5]; digest[6] = g_md5[6]; digest[7] = g_md5[7];
    digest[8] = g_md5[8]; digest[9] = g_md5[9]; digest[10] = g_md5[10]; digest[11] = g_md5[11]; digest[12] = g_md5[12]; digest[13] = g_md5[13]; digest[14] = g_md5[14]; digest[15] = g_md5[15];
 }
+// ---- environment of backup_create_md5_file(): the file being digested is a ghost byte sequence of length g_src_len; fread hands
+// out consecutive chunks of it (ghost cursor g_src_pos), md5.Update() must be fed exactly those chunks, in order ----
+size_t g_src_len, g_src_pos;        // ghost: size of the file / read cursor
+size_t g_fed;                       // ghost: number of bytes handed to MD5::Update so far (all in order <=> g_fed == cursor at each call)
+bool   g_fed_in_order, g_src_error; // ghost: every Update got exactly the chunk just read; a read error happened
+bool   g_digest_is_whole;           // ghost: Final() was called after the whole file had been fed
+bool   g_md5file_written; unsigned char g_written_dig[16];
+const void *g_last_buf; size_t g_last_n;
+FILE g_f_src;
+size_t fread(void *ptr, size_t size, size_t nmemb, FILE *f) { return 0; }
+int ferror(FILE *f) { return 0; }                                                           // replaced by ferror_src_contract                 // replaced by fread_contract
+void c_md5_update(const void *data, unsigned len) { }                                      // replaced by md5_update_contract
+void c_md5_final(UINT8 *digest) { }                                                        // replaced by md5_final_contract
+void c_write_md5_line(FILE *f, unsigned d0, unsigned d1, unsigned d2, unsigned d3, unsigned d4, unsigned d5, unsigned d6, unsigned d7,
+                      unsigned d8, unsigned d9, unsigned d10, unsigned d11, unsigned d12, unsigned d13, unsigned d14, unsigned d15) { }   // replaced by write_md5_line_contract
+const char *path_basename(const char *path) { return path; }
 // replaced by contracts
 FILE *fopen(const char *path, const char *mode) { return 0; }
 char *fgets(char *s, int size, FILE *f) { return 0; }
@@ -56,16 +72,32 @@ size_t fwrite(const void *ptr, size_t size, size_t nmemb, FILE *f) { return 0; }
 int memcmp(const void *a, const void *b, size_t n) { return 0; }
 void exit(int status) { }
 }
-struct MD5 { static void Calc(const void *data, unsigned length, UINT8 *digest) { MD5_Calc(data, length, digest); } };
+struct MD5
+{
+   static void Calc(const void *data, unsigned length, UINT8 *digest) { MD5_Calc(data, length, digest); }
+   void Init() { g_fed = 0; g_fed_in_order = true; }
+   void Update(const void *data, UINT32 len) { c_md5_update(data, len); }
+   void Final(UINT8 digest[16]) { c_md5_final(digest); }
+};
+// fprintf(thefile, "%02x" x16 "  %s\n", dig[0..15], basename): the 16 digest bytes reach the md5 file
+#define fprintf(f, fmt, d0, d1, d2, d3, d4, d5, d6, d7, d8, d9, d10, d11, d12, d13, d14, d15, name) c_write_md5_line(f, d0, d1, d2, d3, d4, d5, d6, d7, d8, d9, d10, d11, d12, d13, d14, d15)
 #define VSN_PICK(_1, _2, _3, _4, _5, _6, _7, _8, _9, _10, _11, _12, _13, _14, _15, _16, _17, _18, _19, NAME, ...) NAME
 #define snprintf(...) VSN_PICK(__VA_ARGS__, verif_snprintf_hex16, x, x, x, x, x, x, x, x, x, x, x, x, x, verif_snprintf_path, x, x, x, x)(__VA_ARGS__)
 using namespace std;
 extern "C" {
 //@slice src/backup.cpp fn backup_copy_file
+//@slice src/backup.cpp fn backup_create_md5_file
 }
 #include "offsets_cpp.h"
 #define CANARY(msg) __CPROVER_assert(0, "VACUITY_CANARY " msg)
 extern "C" {
+void h_backup_create_md5_file()
+{
+   const char *fn;
+   backup_create_md5_file(fn);
+   if (g_md5file_written) { CANARY("backup_create_md5_file: md5 file written"); }
+   if (g_src_pos > 8192) { CANARY("backup_create_md5_file: several chunks read"); }
+}
 void h_backup_copy_file()
 {
    const char *fn; vector_UINT8 d;
